@@ -82,8 +82,15 @@ Inductive mrow :=
 | MRun (lc : call) (o : obs) (wpre wpost : world)   (* one step of a live breaker: (wpost, o) = step wpre lc *)
 | MBad.                                   (* index out of range *)
 
+(* nopBreaker runs the request and hands its result back: the caller's predicate is never asked
+   (so one that would panic does not) *)
+Definition plain_entry (e : entry) : entry :=
+  match e with EDoAcc => EDo | EDoFbAcc => EDoFb | _ => e end.
+
+Definition nop_result (e : entry) (o : outcome) : result := result_of (plain_entry e) o.
+
 Definition nop_obs (c : call) (o : outcome) : obs :=
-  mkObs (result_of (k_entry c) o) (if is_allow (k_entry c) then 0 else 1) 0 None.
+  mkObs (nop_result (k_entry c) o) (if is_allow (k_entry c) then 0 else 1) 0 None.
 
 Definition will_run (cfg : config) (w : world) (now : Z) (c : call) : bool :=
   match k_ctx c with
